@@ -64,13 +64,13 @@ class Lean:
                 if not ok and pid is not None:
                     mods = sorted({o['module'] for o in Lean.obligations(pid)})
                     failed = sorted(set(re.findall(r'^- (Kingdon[\w\.]*)', p.stdout + p.stderr, re.M)))
-                    p2 = subprocess.run(['lake', 'build', 'Kingdon.Driver'] + mods, cwd=LEAN, capture_output=True, text=True, timeout=timeout)
+                    p2 = subprocess.run(['lake', 'build', 'kdriver'] + mods, cwd=LEAN, capture_output=True, text=True, timeout=timeout)
                     if p2.returncode == 0:
                         ok, log = True, 'modules outside this property failed to build: ' + ', '.join(failed)
                         Lean.partial_build = failed
                     else:
                         # the driver alone?  (then the correspondence can still run; the obligations are reported broken by the audit)
-                        p3 = subprocess.run(['lake', 'build', 'Kingdon.Driver'], cwd=LEAN, capture_output=True, text=True, timeout=timeout)
+                        p3 = subprocess.run(['lake', 'build', 'kdriver'], cwd=LEAN, capture_output=True, text=True, timeout=timeout)
                         failed2 = sorted(set(re.findall(r'^- (Kingdon[\w\.]*)', p2.stdout + p2.stderr, re.M)))
                         if p3.returncode == 0:
                             ok, log = True, 'property modules failed to build: ' + ', '.join(failed2)
@@ -178,8 +178,11 @@ class Lean:
         if not lines:
             return []
         inp = '\n'.join(lines) + '\n'
-        p = subprocess.run(['lake', 'env', 'lean', '--run', 'Main.lean'], cwd=LEAN, input=inp,
-                           capture_output=True, text=True, timeout=timeout)
+        exe = os.path.join(LEAN, '.lake', 'build', 'bin', 'kdriver')
+        # the compiled driver (built by `lake build` together with the library, so never older than the model) is 10-50x
+        # faster than interpreting Main.lean; the interpreter is the fallback
+        cmd = [exe] if (os.path.exists(exe) and not os.environ.get('VERIF_INTERPRET_DRIVER')) else ['lake', 'env', 'lean', '--run', 'Main.lean']
+        p = subprocess.run(cmd, cwd=LEAN, input=inp, capture_output=True, text=True, timeout=timeout)
         out = p.stdout.split('\n')
         if out and out[-1] == '':
             out.pop()
